@@ -249,6 +249,11 @@ Definition m_resp_str (r : resp) : list obs := [ORepr []].
 Definition m_resp_raise (r : resp) : list obs * stop :=
   if r_failed r then ([OExc E_CMDFAIL []], SRaised) else ([], SOk).
 
+(* `driver.X = v` on an EXISTING driver (credential rotation, another password after a refused login).  The credential
+   attributes (auth_password, auth_private_key_passphrase, auth_secondary) are plain attribute stores: nothing becomes
+   observable; the setters of the public tunables (comms_..., timeout_...) log the new value at DEBUG. *)
+Definition m_assign (cred : bool) (v : msg) : list obs := if cred then [] else [OInfo v].
+
 Inductive op :=
 | OpLoginTelnet (user pw : msg)
 | OpLoginSsh (handler : bool) (pw ph : msg)
@@ -260,7 +265,8 @@ Inductive op :=
 | OpStr (c : conf)
 | OpRespRepr (r : resp)
 | OpRespStr (r : resp)
-| OpRespRaise (r : resp).
+| OpRespRaise (r : resp)
+| OpAssign (cred : bool) (v : msg).
 
 Definition run_op (fixd : bool) (o : op) (h : list rev) : list obs * stop * list rev :=
   match o with
@@ -275,6 +281,7 @@ Definition run_op (fixd : bool) (o : op) (h : list rev) : list obs * stop * list
   | OpRespRepr r => (m_resp_repr r, SOk, h)
   | OpRespStr r => (m_resp_str r, SOk, h)
   | OpRespRaise r => let '(t, s) := m_resp_raise r in (t, s, h)
+  | OpAssign cred v => (m_assign cred v, SOk, h)
   end.
 
 (* a session: operations in order over one history; the first failure ends it *)
@@ -307,6 +314,8 @@ Definition op_wf (o : op) : bool :=
      str() and raise_for_status(): no condition at all *)
   | OpRespRepr r => pub (r_host r) && pub (r_input r) && pub (r_fwc r)
   | OpRespStr _ | OpRespRaise _ => true
+  (* a credential may be any secret; what is assigned to a public tunable holds no secret *)
+  | OpAssign cred v => cred || pub v
   end.
 (* the first input of an interaction is typed at the command prompt: it is not the hidden one *)
 Definition op_wf_first (o : op) : bool :=
